@@ -173,6 +173,9 @@ SPECS = [
          }},
          ensures=[
              "evals(4) == 1",
+             # the repeat expression is evaluated in the ENCLOSING scope: it sees the outer binding of
+             # the loop variable (tal:repeat="x x", tal:repeat="node node.children")
+             "visible_at('e4', 'i') is visible0('i')",
              "S() == acc(rlen()) + 'B'",
              "rlen() > 0 or S() == S0() + 'AB'",
              "visible('i') is visible0('i')",
